@@ -671,6 +671,32 @@ func classDashN(c *Ctx, rule string) {
 	}
 	elem := list + "[" + idx + "]"
 	notLast := map[string]bool{idx + "<len(" + list + ")-1": true, idx + "+1<len(" + list + ")": true, idx + "!=len(" + list + ")-1": true, idx + "+1!=len(" + list + ")": true}
+	// the locals the loop updates where it appends to the range list (the "just closed a range" flag of the state
+	// machine, or an index of the last range end): an opening path must consult one of them - a dash directly after a
+	// range would otherwise take the member *before* that range as the low end of a new one ([_a-z-.])
+	dollar := regexp.MustCompile(`\$\d+`)
+	rangeLocals := map[string]bool{}
+	for _, p := range paths {
+		appends := false
+		for _, e := range p {
+			if e.Kind == "set" && strings.HasPrefix(e.Text, cp.extRanges+"=append(") {
+				appends = true
+			}
+		}
+		if !appends {
+			continue
+		}
+		for _, e := range p {
+			if e.Kind == "set" {
+				if k := strings.Index(e.Text, "="); k > 0 && dollar.MatchString(e.Text[:k]) && dollar.FindString(e.Text[:k]) == e.Text[:k] {
+					rangeLocals[e.Text[:k]] = true
+				}
+			}
+		}
+	}
+	delete(rangeLocals, list)
+	delete(rangeLocals, cp.extChars)
+	delete(rangeLocals, cp.extRanges)
 	var bad []string
 	n := 0
 	for _, p := range paths {
@@ -709,6 +735,17 @@ func classDashN(c *Ctx, rule string) {
 			default:
 				bad = append(bad, "a range is opened under the further condition `"+f+"`")
 			}
+		}
+		afterRange := false
+		for _, f := range p.facts() {
+			for _, tok := range dollar.FindAllString(f, -1) {
+				if rangeLocals[tok] {
+					afterRange = true
+				}
+			}
+		}
+		if !afterRange {
+			bad = append(bad, "a range is opened without consulting what the loop records when it completes a range: a dash directly after a range takes the member before that range as the low end of a new one ([_a-z-.] reads as the range '_'-'.')")
 		}
 		if !dash {
 			bad = append(bad, "a range is opened by a member that is not tested to be a dash")
